@@ -51,6 +51,8 @@ ASSUMPTIONS = [
     'per-class population bounds and palettes as reported under bounds; within them the enumeration is complete',
     'every association-shape model is loaded twice: nulls as id 0 in positional INSERTs and nulls as absent columns of named '
     'INSERTs; identifier-set models use named INSERTs (unset = absent column)',
+    'subtype checking is also decided for variants of one supertype (same class name and number, other subtype sets) checked '
+    'one after the other in one process, and for a subtype added to the live metamodel between two checks',
     'a stage that reports violations ends the run (stages: command lines, identifier sets, association shapes, histories)',
     'bridgepoint.consistency_check is decided on BridgePoint-format rows of PE_PE, S_DT, S_CDT (plus the built-in globals with -g)',
 ]
@@ -1185,6 +1187,113 @@ def e_models(ctx):
     return out
 
 
+
+# ---------------------------------------------------------------------------
+# F -- sub/super variants of one supertype (same class name and number) one after the other in one process, and
+#      subtypes added to a live metamodel between two checks
+# ---------------------------------------------------------------------------
+
+F_VARIANTS = [('S1',), ('S1', 'S2'), ('S2', 'S3'), ('S1', 'S2', 'S3')]
+F_REL = 4
+
+
+def f_model(subs):
+    import xtuml
+    m = xtuml.MetaModel(xtuml.IntegerGenerator())
+    m.define_class('P', [('Id', 'unique_id'), ('Z', 'integer')])
+    m.define_unique_identifier('P', 1, 'Id')
+    for sname in subs:
+        f_add_subtype(m, sname)
+    return m
+
+
+def f_add_subtype(m, sname):
+    m.define_class(sname, [('Id', 'unique_id'), ('Z', 'integer')])
+    m.define_unique_identifier(sname, 1, 'Id')
+    m.define_association(F_REL, sname, ['Id'], False, True, '', 'P', ['Id'], False, False, '').formalize()
+
+
+def f_populate(m, subs, pop):
+    '''pop: per supertype instance the index of its subtype in subs (or None).'''
+    import xtuml
+    for k, which in enumerate(pop):
+        p = m.new('P', Id=100 + k)
+        if which is not None:
+            s = m.new(subs[which], Id=900 + k)
+            xtuml.relate(s, p, F_REL)
+
+
+def f_pops(subs, n):
+    out = []
+    for k in range(n + 1):
+        out += list(itertools.product([None] + list(range(len(subs))), repeat=k))
+    return out
+
+
+def f_check(ctx, case):
+    try:
+        return _f_check(ctx, case)
+    except Exception as e:
+        ctx.violation('c11:subtype:variants', dict(case, family='subsuper'),
+                      'supertype P with subtypes %s, instances with subtype %r, models checked earlier in the process %r: %s: %s' %
+                      (case['subs'], case['pop'], case['pre'], type(e).__name__, e), 'a count', type(e).__name__)
+        return False
+
+
+def _f_check(ctx, case):
+    import xtuml
+    pre, subs, pop, live = case['pre'], case['subs'], case['pop'], case['live']
+    for psubs, ppop in pre:
+        pm = f_model(psubs)
+        f_populate(pm, psubs, ppop)
+        for arg in (F_REL, 'R%d' % F_REL):
+            xtuml.check_subtype_integrity(pm, 'P', arg)
+    if live:
+        # the last subtype joins the live metamodel after a first check
+        m = f_model(subs[:-1])
+        f_populate(m, subs[:-1], [w if w is not None and w < len(subs) - 1 else None for w in pop])
+        xtuml.check_subtype_integrity(m, 'P', F_REL)
+        f_add_subtype(m, subs[-1])
+        for k, which in enumerate(pop):
+            if which == len(subs) - 1:
+                s = m.new(subs[-1], Id=900 + k)
+                xtuml.relate(s, m.select_any('P', lambda sel: sel.Id == 100 + k), F_REL)
+    else:
+        m = f_model(subs)
+        f_populate(m, subs, pop)
+    exp = sum(1 for which in pop if which is None)
+    ctx.count('subsuper_variant_checks')
+    for arg in (F_REL, 'R%d' % F_REL):
+        for kind in ('P', 'p'):
+            ctx.count('evaluations')
+            try:
+                g = xtuml.check_subtype_integrity(m, kind, arg)
+            except Exception as e:
+                g = 'raised %s: %s' % (type(e).__name__, e)
+            ctx.distinct('outcomes', ('subsuper', len(subs), g, bool(live)))
+            if g != exp:
+                ctx.violation('c11:subtype:variants', dict(case, family='subsuper'),
+                              'supertype P with subtypes %s (%s), instances with subtype %r: check_subtype_integrity(m, %r, %r) = %r, '
+                              'expected %d; models checked earlier in the process: %r' %
+                              (list(subs), 'last one added to the live metamodel after a first check' if live else 'defined at once',
+                               list(pop), kind, arg, g, exp, pre), exp, g)
+                return False
+    if exp:
+        ctx.count('subtype_violations_seen')
+    return True
+
+
+def f_run(ctx, task):
+    i, j, live = task
+    pre_subs = F_VARIANTS[i]
+    pre = [[list(pre_subs), [0, None]]] if i != j or not live else []
+    subs = F_VARIANTS[j]
+    for pop in f_pops(subs, 2 if ctx.quick else 3):
+        if live and len(subs) < 2:
+            continue
+        f_check(ctx, dict(pre=pre if i != j else [], subs=list(subs), pop=list(pop), live=live))
+    return None
+
 # ---------------------------------------------------------------------------
 # driver
 # ---------------------------------------------------------------------------
@@ -1214,6 +1323,11 @@ def run(ctx):
             print('  violations reported; remaining stages skipped', flush=True)
             return
     ctx.count('models_enumerated', ctx.n('models'))
+    # sub/super variants: each ordered pair of variants in a process of its own
+    ctx.pmap(f_run, [(i, j, live) for i in range(len(F_VARIANTS)) for j in range(len(F_VARIANTS)) for live in (False, True)], fresh=True)
+    ctx.require(ctx.n('subsuper_variant_checks') >= 200, 'too few sub/super variant checks (%d)' % ctx.n('subsuper_variant_checks'))
+    if ctx.violations:
+        return
     total = 0
     for m in explorer.rotate(e_models(ctx), ctx.seed):
         res = explorer.bfs(ctx, m, chunk=8, label=m.schema.name)
@@ -1247,6 +1361,8 @@ def replay(ctx, case):
         schema = schemas.by_name(case['shape'], [PAYLOAD])
         m = HistModel(schema, case['caps'], e_seeds(schema.name))
         explorer.replay_case(ctx, m, case['hist'], case.get('op'))
+    elif fam == 'subsuper':
+        f_check(ctx, case)
     elif fam == 'cli':
         cli_check(ctx, schema_from_json(case['schema']), case['rows'], case['rels'], case['kinds'], case['split'])
     elif fam == 'bp':
@@ -1279,6 +1395,7 @@ def coverage(ctx):
         models_where_counting_rules_differ=ctx.n('models_where_counting_rules_differ'),
         models_with_several_accepted_counts=ctx.n('models_with_several_accepted_counts'),
         subtype_violations_seen=ctx.n('subtype_violations_seen'),
+        subsuper_variant_checks=ctx.n('subsuper_variant_checks'),
         cli_runs=ctx.n('cli_runs'), cli_runs_with_violations=ctx.n('cli_runs_with_violations'),
         cli_runs_clean=ctx.n('cli_runs_clean'), cli_runs_restricted_to_clean_part=ctx.n('cli_runs_restricted_to_clean_part'),
         bp_cli_runs=ctx.n('bp_cli_runs'), bp_runs_with_violations=ctx.n('bp_runs_with_violations'),
